@@ -331,6 +331,13 @@ def check_dependencies(graph, suite_path, phase):
                         if any(po is obj or (po.key == obj.key and po.long_suffix == obj.long_suffix) for po in pobjs):
                             actual.append(p)
                             accounted.add(id(p))
+                    # a producer has to work on this very object (same vm, same variant), not on a namesake
+                    for p in actual:
+                        if not any(po.key == "vms" and po.suffix == vm and variant_token(po.params["name"]) == token
+                                   for po in p.objects):
+                            out.append(V("C07", "dependency-on-other-object",
+                                         f"{label(n)} depends for {typ} of {vm} on a test that does not use that object",
+                                         phase=phase, parent=label(p), parent_vms=p.params.get("vms")))
                     want = sorted({e[0] for e in expected})
                     got = sorted({strip_set(flat_part(p.params["name"])) for p in actual})
                     if len(want) > 1 and not branch:
